@@ -415,8 +415,8 @@ func (lu *LU) SolveTo(dst *Dense, trans bool, b Matrix) error {
 		var restore func()
 		dst, restore = dst.isolatedWorkspace(bU)
 		defer restore()
-	} else if rm, ok := bU.(RawMatrixer); ok {
-		dst.checkOverlap(rm.RawMatrix())
+	} else {
+		dst.checkOverlapMatrix(bU)
 	}
 
 	dst.Copy(b)
